@@ -15,13 +15,15 @@ import random
 import signal
 import warnings
 
+import bridgetie
 import coregen
 import coremodel
 import coreprop
 import impl
 import lib
 
-COQ_TARGETS = ["theories/Props/C07.vo", "theories/Model/BuildTables.vo", "theories/Model/CoreTables.vo"]
+COQ_TARGETS = ["theories/Props/C07.vo", "theories/Model/BuildTables.vo", "theories/Model/CoreTables.vo",
+               "theories/Props/C05Bridge.vo", "theories/Model/GraphBridgeEq.vo"]
 THEOREMS = ["C07_build_total", "C07_no_raw_level", "C07_all_depths"]
 EDGES = ["opt", "list", "dict", "tuple", "bar"]
 
@@ -218,6 +220,8 @@ def correspond(run: lib.Run):
     run.record_corr("mechanism-vs-reference-semantics", ncases, [g.cases[i][4] for g, i in ba], distinct, dist)
     if groups and groups[0].cases:
         run.samples.append(groups[0].cases[-1][4])
+    # the order contract assumed by this property's theorems is decided through the graph model (notes/bridge.md)
+    bridgetie.bridge_obligations(run, groups, "c07")
 
 
 # ----------------------------------------------------------------------------------
